@@ -339,6 +339,10 @@ def run(ctx):
         alphabets_compared_by_value(ctx, rel_, "R5.alphabet-compared-by-value")
     # positions and codes arrive as NumPy integers as often as Python ints
     from ..lints import integer_tests_accept_numpy
+    # the symbols a constructor is given are encoded from a list, not from a one-shot iterator that a fallback reads again
+    from ..lints import iterators_consumed_once
+    for rel_ in (TYPES, SEQ, ALPH, CODON):
+        iterators_consumed_once(ctx, rel_, "R2.symbols-iterated-once")
     integer_tests_accept_numpy(ctx, SEQ, "R6.integer-test-accepts-numpy", 1)
     integer_tests_accept_numpy(ctx, CODON, "R6.integer-test-accepts-numpy", 2)
 
